@@ -30,9 +30,11 @@ pub fn gcd<const BITS: usize, const LIMBS: usize>(
             // Lehmer step failed to find a factor, which happens when
             // the factor is very large. We do a regular Euclidean step, which
             // will make a lot of progress since `q` will be large.
+            verif_hit!(30);
             a %= b;
             swap(&mut a, &mut b);
         } else {
+            verif_hit!(33);
             m.apply(&mut a, &mut b);
         }
     }
@@ -93,6 +95,7 @@ pub fn gcd_extended<const BITS: usize, const LIMBS: usize>(
             // Lehmer step failed to find a factor, which happens when
             // the factor is very large. We do a regular Euclidean step, which
             // will make a lot of progress since `q` will be large.
+            verif_hit!(31);
             let q = a / b;
             a -= q * b;
             swap(&mut a, &mut b);
@@ -168,6 +171,7 @@ pub fn inv_mod<const BITS: usize, const LIMBS: usize>(
             // Lehmer step failed to find a factor, which happens when
             // the factor is very large. We do a regular Euclidean step, which
             // will make a lot of progress since `q` will be large.
+            verif_hit!(32);
             let q = a / b;
             a -= q * b;
             swap(&mut a, &mut b);
